@@ -16,6 +16,7 @@ CHECKS = {
     "C09": _lazy("resolve", "run_c09"),
     "C10": _lazy("resolve", "run_c10"),
     "C11": _lazy("resolve", "run_c11"),
+    "C12": _lazy("resolve", "run_c12"),
     "C04": _lazy("graph", "run_c04"),
     "C05": _lazy("graph", "run_c05"),
     "C13": _lazy("frag", "run_c13"),
